@@ -19,7 +19,15 @@ pub struct Recorded {
 /// reset, registration events, final print, build, `built` event.
 pub fn record_registration(prog: &Prog, variant: Variant, prog_no: usize, var_no: usize, print_every: bool) -> Recorded {
     #[cfg(feature = "parallel")]
-    return record_registration_pool(prog, variant, prog_no, var_no, print_every, shared_pool());
+    return record_registration_pool(
+        prog,
+        variant,
+        prog_no,
+        var_no,
+        print_every,
+        // plans do not depend on the pool: a one-worker pool now and then
+        if early_pool() && prog_no % 2 == 0 { one_pool() } else { shared_pool() },
+    );
     #[cfg(not(feature = "parallel"))]
     return record_registration_pool(prog, variant, prog_no, var_no, print_every, ());
 }
@@ -49,15 +57,24 @@ fn record_registration_body(
     pool: PoolArg,
 ) -> Recorded {
     let mut rec = Recorder::new(variant, print_every);
-    rec.events.push(json!({"ev":"reset","prog":prog_no,"var":var_no,"unwinding":crate::unwind::active()}));
+    let nopool = no_pool();
+    let early = early_pool() && !nopool;
+    rec.events.push(json!({"ev":"reset","prog":prog_no,"var":var_no,"unwinding":crate::unwind::active(),"earlypool":early}));
+    #[cfg(feature = "parallel")]
+    if early {
+        rec.early_pool = Some(pool.clone());
+    }
     let (b, top) = rec.build(prog);
     rec.print(top, &b);
     let blay = b.verif_layout();
-    #[cfg(feature = "parallel")]
-    let b = b.with_pool(pool);
-    #[cfg(not(feature = "parallel"))]
-    let _ = pool;
-    let d = std::panic::catch_unwind(std::panic::AssertUnwindSafe(move || b.build()));
+    // (attaching the pool is a builder call like any other: a panic in it is data, not a harness crash)
+    let d = std::panic::catch_unwind(std::panic::AssertUnwindSafe(move || {
+        #[cfg(feature = "parallel")]
+        let b = if early || nopool { b } else { b.with_pool(pool) };
+        #[cfg(not(feature = "parallel"))]
+        let _ = (pool, early, nopool);
+        b.build()
+    }));
     match d {
         Ok(d) => {
             let dl = d.verif_layout();
@@ -80,6 +97,36 @@ fn record_registration_body(
 
 /// One small pool shared by all dispatchers that are only built, not run
 /// (the default would create a 16-thread pool per build).
+thread_local! {
+    static EARLY_POOL: std::cell::Cell<bool> = std::cell::Cell::new(false);
+    static NO_POOL: std::cell::Cell<bool> = std::cell::Cell::new(false);
+}
+
+/// The following programs of this thread get no pool from the harness: `build` creates the default one.
+pub fn set_no_pool(on: bool) {
+    NO_POOL.with(|a| a.set(on));
+}
+
+pub fn no_pool() -> bool {
+    NO_POOL.with(|a| a.get())
+}
+
+/// The following programs of this thread get their pool before anything is registered (instead of just before `build`).
+pub fn set_early_pool(on: bool) {
+    EARLY_POOL.with(|a| a.set(on));
+}
+
+pub fn early_pool() -> bool {
+    EARLY_POOL.with(|a| a.get())
+}
+
+#[cfg(feature = "parallel")]
+pub fn one_pool() -> std::sync::Arc<rayon::ThreadPool> {
+    static POOL: std::sync::OnceLock<std::sync::Arc<rayon::ThreadPool>> = std::sync::OnceLock::new();
+    POOL.get_or_init(|| std::sync::Arc::new(rayon::ThreadPoolBuilder::new().num_threads(1).build().unwrap()))
+        .clone()
+}
+
 #[cfg(feature = "parallel")]
 pub fn shared_pool() -> std::sync::Arc<rayon::ThreadPool> {
     static POOL: std::sync::OnceLock<std::sync::Arc<rayon::ThreadPool>> = std::sync::OnceLock::new();
